@@ -24,11 +24,13 @@ def env_cases(ctx, rng, big):
     from buidl.network import NetworkEnvelope
     cases = []
     sizes = [0, 1, 2, 31, 80, 1000] + ([100000, 65536] if big else [])
+    # payloads across the 65535 / 65536 boundary and at the top of the quantifier are part of every run (on two networks)
+    bignets = {"mainnet", rng.choice([n for n in NETS if n != "mainnet"])}
     k = 0
     for net in NETS:
         for clen in ([0, 1, 7, 11, 12] if net == "mainnet" else [rng.randrange(0, 13)]):
             cmd = bytes(rng.choice(b"abcdefghijklmnopqrstuvwxyz") for _ in range(clen))
-            for size in (sizes if clen in (7, 12) or net != "mainnet" else [0, 5]):
+            for size in ((sizes if clen in (7, 12) or net != "mainnet" else [0, 5]) + ([65535, 65536, 65537, 100000] if not big and net in bignets and (clen == 12 or net != "mainnet") else [])):
                 payload = bytes(rng.randrange(256) for _ in range(size)) if size <= 1000 else bytes([rng.randrange(256)]) * size
                 env = NetworkEnvelope(cmd, payload, network=net)
                 ser = outcome(env.serialize)
@@ -112,6 +114,36 @@ def msg_cases(ctx, rng):
         r = outcome(m.serialize)
         jm = {k: (le(v) if isinstance(v, int) and not isinstance(v, bool) else B(v) if isinstance(v, bytes) else v) for k, v in f.items()}
         cases.append({"id": "ver%d" % i, "kind": "version", "m": jm, "bytes": B(r[1]) if r[0] == "ok" else []})
+    # one field at a time at its boundary values (0 / empty / False / maximum) around a fixed base message: a default that is
+    # substituted for a falsy argument shows exactly there
+    base = {"version": 70015, "services": 1033, "timestamp": 1700000000, "receiver_services": 5, "receiver_ip": bytes([10, 0, 0, 1]), "receiver_port": 8333,
+            "sender_services": 9, "sender_ip": bytes([192, 168, 1, 2]), "sender_port": 18444, "nonce": bytes(range(1, 9)), "user_agent": b"/x:1/", "latest_block": 800000, "relay": True}
+    bounds = {"version": [0, 1, 2 ** 32 - 1], "services": [0, 2 ** 64 - 1], "timestamp": [0, 1], "receiver_services": [0, 2 ** 64 - 1], "receiver_ip": [bytes(4), b"\xff" * 4],
+              "receiver_port": [0, 1, 65535], "sender_services": [0, 2 ** 64 - 1], "sender_ip": [bytes(4)], "sender_port": [0, 1, 65535], "nonce": [bytes(8), b"\xff" * 8],
+              "user_agent": [b"", b"\x00"], "latest_block": [0, 1, 2 ** 32 - 1], "relay": [False]}
+    j = 0
+    for field, vals in bounds.items():
+        for v in vals:
+            f = dict(base)
+            f[field] = v
+            r = outcome(lambda: NW.VersionMessage(**f).serialize())
+            jm = {k: (le(x) if isinstance(x, int) and not isinstance(x, bool) else B(x) if isinstance(x, bytes) else x) for k, x in f.items()}
+            cases.append({"id": "verb%d" % j, "kind": "version", "m": jm, "bytes": B(r[1]) if r[0] == "ok" else []})
+            ctx.nontriv(("version-boundary", field, j))
+            j += 1
+    for i, (ver, eb) in enumerate([(0, None), (1, bytes(32)), (2 ** 32 - 1, rb(32)), (70015, b"\x00" * 31 + b"\x01")]):
+        sb = rng.choice([bytes(32), rb(32)])
+        r = outcome(lambda: NW.GetHeadersMessage(version=ver, num_hashes=1, start_block=sb, end_block=eb).serialize())
+        cases.append({"id": "ghb%d" % i, "kind": "getheaders", "m": {"version": le(ver), "num_hashes": le(1), "start_block": B(sb), "end_block": B(eb or b"\x00" * 32)},
+                      "bytes": B(r[1]) if r[0] == "ok" else []})
+    for i, (ft, sh) in enumerate([(a, b) for a in (0, 1, 255) for b in (0, 1, 2 ** 32 - 1)]):
+        st = rng.choice([bytes(32), rb(32)])
+        for kind, cls in (("getcfilters", CF.GetCFiltersMessage), ("getcfheaders", CF.GetCFHeadersMessage)):
+            r = outcome(lambda: cls(filter_type=ft, start_height=sh, stop_hash=st).serialize())
+            cases.append({"id": "%sb%d" % (kind, i), "kind": kind, "m": {"filter_type": ft, "start_height": le(sh), "stop_hash": B(st)}, "bytes": B(r[1]) if r[0] == "ok" else []})
+            ctx.nontriv((kind, ft, sh))
+        r = outcome(lambda: CF.GetCFCheckPointMessage(filter_type=ft, stop_hash=st).serialize())
+        cases.append({"id": "gcpb%d" % i, "kind": "getcfcheckpt", "m": {"filter_type": ft, "stop_hash": B(st)}, "bytes": B(r[1]) if r[0] == "ok" else []})
     for i, nh in enumerate([0, 1, 0xFC, 0xFD, 0xFFFF, 0x10000, 0xFFFFFFFF, 2000]):
         sb, eb = rb(32), rng.choice([None, rb(32)])
         m = NW.GetHeadersMessage(version=rng.choice([70015, 1]), num_hashes=nh, start_block=sb, end_block=eb)
